@@ -2,11 +2,10 @@
  * Include after the generated unit header (which defines u8..u64, G(k), vp_* externs). */
 #ifndef VP_RT_H
 #define VP_RT_H
-#include <stdlib.h>
-#include <string.h>
+void *malloc(size_t); void free(void *); void exit(int);
 
 #ifdef VP_NATIVE
-#include <stdio.h>
+int printf(const char *, ...);
 u64 vp_nd_raw(void);                       /* rt/native.c: next value of the replay / random stream */
 #define __CPROVER_assume(c) do { if (!(c)) { printf("VP-ASSUME-FALSE %s:%d\n", __FILE__, __LINE__); exit(3); } } while (0)
 #define VP_ASSERT(c, msg) do { if (!(c)) { printf("VP-ASSERT-FAIL %s (%s:%d)\n", msg, __FILE__, __LINE__); exit(1); } } while (0)
@@ -34,8 +33,13 @@ unsigned vp_left, vp_changed;
 void vp_pause(void) {}
 void vp_trap(void) { VP_ASSERT(0, "llvm.trap reached"); }
 void vp_unreachable(void) { VP_ASSERT(0, "unreachable reached"); }
+/* default definitions of the OS/libc externals the translated code may reference (vpx_ prefix, see ir2c.py fname) */
 #ifndef VP_OWN_YIELD
-u32 sched_yield(void) { return 0; }
+u32 vpx_sched_yield(void) { return 0; }
+#endif
+#ifndef VP_OWN_MALLOC
+u8* vpx_malloc(u64 n) { u8* p = malloc(n); __CPROVER_assume(p != 0); return p; }
+void vpx_free(u8* p) { free(p); }
 #endif
 
 /* ---- Lazy-CSeq style scheduler (thread-mode units) ---- */
